@@ -756,6 +756,10 @@ func goCode(root string, unit string) string {
 		header("Model.GoSem", "Model.GoSlices", "Model.GoCtl", "Model.GoConv", "Model.Mime", "Generated.GoFeed", "Generated.GoHistory")
 		text, errs := translateUpdate(root)
 		emit("ui/ui.go ((*State).Update)", text, errs)
+	case "hex":
+		header("Model.GoSem", "Model.GoBytes", "Generated.GoConfig")
+		text, errs := translateHex(parseFile(root, "config/config.go"))
+		emit("config/config.go (hexToAnsi and parse, on bytes)", text, errs)
 	default:
 		b.WriteString("-- unknown unit " + unit + "\n")
 	}
